@@ -33,7 +33,11 @@ pub fn decode(bytes: &[u8]) -> Case {
     let built = gen_built(&mut gs, &cfg);
     let method = if s.bool() { Method::External } else { Method::Sampled };
     let preset = s.below(5);
-    let iters = [100u64, 300, 1000, 3000][s.below(4)];
+    let mut iters = [100u64, 300, 1000, 3000][s.below(4)];
+    // long runs on tiny games (the average must keep converging past every power of two)
+    if built.info.num_nodes <= 12 && s.chance(24) {
+        iters = [40_000u64, 70_000, 140_000][s.below(3)];
+    }
     let threads = if s.weighted(&[3, 1]) == 0 { 1 } else { 2 + s.below(7) };
     let seed = s.u32() as u64;
     Case {
@@ -265,7 +269,7 @@ pub fn prop() -> Prop {
         id: "C04",
         check,
         describe,
-        rule: "per case: generated games (half tiny) x {Sampled, External} x five presets x T in {100,300,1000,3000} x {1, 2..8 threads}, production samplers on per-site seeded generators (reproducible); oracle: true regret (independent) <= D N sqrt(A)/sqrt(T); one exceedance is re-run with 20 more sampling seeds and is a violation only if a majority of the 21 runs exceed. Aggregate: over a fixed collection of generated non-trivial games (uniform regret > 5 % of D) per method x preset x {1, 4 threads}: median regret/D at T=3000 < 0.01 and <= half the median at T=100 (unless already < 1e-5). Non-trivial (per case) = the uniform profile violates the envelope at this T; distinct by (tree, method, preset, T, threads, seed).",
+        rule: "per case: generated games (half tiny) x {Sampled, External} x five presets x T in {100,300,1000,3000} (on games of <= 12 nodes one case in ten 40000, 70000 or 140000) x {1, 2..8 threads}, production samplers on per-site seeded generators (reproducible); oracle: true regret (independent) <= D N sqrt(A)/sqrt(T); one exceedance is re-run with 20 more sampling seeds and is a violation only if a majority of the 21 runs exceed. Aggregate: over a fixed collection of generated non-trivial games (uniform regret > 5 % of D) per method x preset x {1, 4 threads}: median regret/D at T=3000 < 0.01 and <= half the median at T=100 (unless already < 1e-5). Non-trivial (per case) = the uniform profile violates the envelope at this T; distinct by (tree, method, preset, T, threads, seed).",
         max_len: 500,
         cases_quick: 30_000,
         cases_thorough: 300_000,
